@@ -139,7 +139,11 @@ def b_muldiv(p):
         m.port("r", "output", ty(p["wo"], s))
         outs.append(("r", p["wo"]))
         m.add("    assign y = a / %s;\n    assign r = a %% %s;" % (cl, cl))
-    elif k in ("divv", "divs"):
+    elif k == "divs":
+        m.port("r", "output", ty(p["wo"], s))
+        outs.append(("r", p["wo"]))
+        m.add("    assign y = a / %s;\n    assign r = a %% %s;" % (bb, bb))
+    elif k == "divv":
         m.add("    assign y = a / %s;" % bb)
     elif k == "modv":
         m.add("    assign y = a %% %s;" % bb)
@@ -148,7 +152,11 @@ def b_muldiv(p):
 
 # ------------------------------------------------------------------------------------------------- shift
 def gp_shift(rng):
-    return {"w": pick_width(rng), "ws": rng.randint(1, 8), "wo": pick_width(rng), "signed": rng.random() < 0.5,
+    w, wo = pick_width(rng), pick_width(rng)
+    c = clog2(max(w, wo))
+    # amount width around the barrel shifter's stage count (one bit more = the first saturating bit)
+    ws = max(1, min(8, rng.choice([c - 1, c, c + 1, c + 1, c + 2, rng.randint(1, 8)])))
+    return {"w": w, "ws": ws, "wo": wo, "signed": rng.random() < 0.5,
             "k": rng.choice([0, 1, 2, 3, 7, 8, 31, 32, 63, 64, 69, 80]), "ops": sorted(rng.sample(range(8), rng.randint(2, 5)))}
 
 
@@ -212,7 +220,12 @@ def b_mux(p):
         pre = "" if p["default"] else "        y = %s;\n" % val(nn + 1)
         m.add("    always_comb {\n%s        case sel {\n%s%s        }\n    }" % (pre, arms, dflt))
     elif st == "range":
-        q = max(1, nn // 3)
+        # arms must be disjoint (overlapping case arms are a known finding class): sel needs >= 3 bits
+        if ws < 3:
+            ws = 3
+            m.ports[0] = "    sel: input %s," % ty(ws)
+            ins[0] = ("sel", ws)
+        q = min(max(1, nn // 3), (1 << ws) - 4)
         m.add("    always_comb {\n        case sel {\n            %s..=%s: y = %s;\n            %s, %s: y = %s;\n"
               "            default: y = %s;\n        }\n    }" %
               (lit(ws, 0), lit(ws, q), val(0), lit(ws, q + 1), lit(ws, min(q + 3, (1 << ws) - 1)), val(1), val(2)))
@@ -329,7 +342,7 @@ def gp_regs(rng):
     return {"w": pick_width(rng, 1, 70), "clk_ty": rng.choice(CLOCK_TYPES), "rst_ty": rng.choice(RESET_TY),
             "reset_type": rng.choice(RESET_TYPES), "clock_type": rng.choice(["posedge", "posedge", "negedge"]),
             "rv": rng.getrandbits(70), "style": rng.choice(["counter", "counter_en", "counter_load", "updown", "acc", "shiftreg",
-                                                            "noreset", "two_blocks", "slices", "sat", "lfsr"]),
+                                                            "noreset", "two_blocks", "slices", "sat", "lfsr", "hold"]),
             "rv_small": rng.random() < 0.5}
 
 
@@ -372,6 +385,12 @@ def b_regs(p):
     elif st == "shiftreg":
         sh = "{r[%d:0], d[0]}" % (w - 2) if w > 1 else "d[0]"
         body = "if_reset {\n            r = %s;\n        } else if en {\n            r = %s;\n        }" % (rvl, sh)
+    elif st == "hold":
+        # one register only ever takes its reset value (D = Q: eliminate_dq_ffs turns it into constants), one loads
+        m.port("q2", "output", ty(w))
+        outs.append(("q2", w))
+        hdr += "    var k: %s;\n    assign q2 = k ^ r;\n    always_ff (clk, rst) {\n        if_reset {\n            k = %s;\n        }\n    }\n" % (ty(w), lit(w, rv ^ 0x33 if w <= 64 else 0))
+        body = "if_reset {\n            r = %s;\n        } else if en {\n            r = d + k;\n        }" % rvl
     elif st == "sat":
         body = "if_reset {\n            r = %s;\n        } else if en && r != %s {\n            r = r + 1;\n        } else if ld && r != '0 {\n            r = r - 1;\n        }" % (rvl, lit(w, (1 << w) - 1))
     elif st == "lfsr":
@@ -409,11 +428,11 @@ def b_regs(p):
 # ------------------------------------------------------------------------------------------------- arrays / RAM
 def gp_ram(rng):
     th = rng.choice([1024, 1024, 64])
-    w = rng.choice([1, 2, 4, 8, 8, 9, 16, 32])
+    w = rng.choice([4, 8, 8, 9, 16, 32]) if th == 1024 else rng.choice([1, 2, 4, 8, 9])
     around = th // w
     depth = max(2, rng.choice([around - 1, around, around + 1, around // 2, around * 2, 3, 5, 12, 16]))
     depth = min(depth, 256)
-    return {"w": w, "depth": depth, "style": rng.choice(["1r1w", "1r1w", "2r1w", "1r2w", "rreg", "bytes", "rmw", "reset", "case_we", "sub"]),
+    return {"w": w, "depth": depth, "style": rng.choice(["1r1w", "1r1w", "2r1w", "1r2w", "rreg", "bytes", "rmw", "reset", "case_we", "sub", "else_we"]),
             "aw_extra": rng.choice([0, 0, 0, 1]), "cond": rng.random() < 0.5}
 
 
@@ -466,6 +485,10 @@ def b_ram(p):
         m.add(decl + "    " + body + "\n" + rd)
         return design("ram", p, m.render(), ins, outs, clk="clk", rst=rst, tags=[st, "bits=%d" % (w * depth)],
                       addr_ports={"waddr": depth, "raddr": depth})
+    elif st == "else_we":
+        m.port("we2", "input", "logic")
+        ins.append(("we2", 1))
+        wr = "if we {\n            mem[waddr] = wdata;\n        } else if we2 {\n            mem[raddr] = ~wdata;\n        } else {\n            if wdata[0] {\n                mem[waddr] = wdata ^ %s;\n            }\n        }" % lit(w, 0x5a5a5a5a)
     elif st == "case_we":
         m.port("mode", "input", ty(2))
         ins.append(("mode", 2))
@@ -491,13 +514,22 @@ def b_ram(p):
 
 # ------------------------------------------------------------------------------------------------- hierarchy
 def gp_hier(rng):
-    return {"w": pick_width(rng, 1, 40), "n": rng.randint(1, 3), "style": rng.choice(["comb", "reg", "chain"]),
+    return {"w": pick_width(rng, 1, 40), "n": rng.randint(1, 3), "style": rng.choice(["comb", "reg", "chain", "iface"]),
             "rst_ty": rng.choice(RESET_TY[1:])}
 
 
 def b_hier(p):
     w, n = p["w"], p["n"]
     st = p["style"]
+    if st == "iface":
+        # producer -> interface (modports) -> consumer, flattened through two instances
+        src = ("interface Bus {\n    var valid: logic;\n    var data: %s;\n    modport master {\n        valid: output,\n        data: output,\n    }\n"
+               "    modport slave {\n        valid: input,\n        data: input,\n    }\n}\n"
+               "module Prod (\n    a: input %s,\n    en: input logic,\n    m: modport Bus::master,\n) {\n    assign m.valid = en;\n    assign m.data = a + %s;\n}\n"
+               "module Cons (\n    s: modport Bus::slave,\n    b: input %s,\n    y: output %s,\n) {\n    assign y = if s.valid ? s.data ^ b : ~b;\n}\n"
+               "module Top (\n    a: input %s,\n    b: input %s,\n    en: input logic,\n    y: output %s,\n) {\n    inst bus: Bus;\n    inst p: Prod (a, en, m: bus);\n"
+               "    inst c: Cons (s: bus, b, y);\n}\n" % (ty(w), ty(w), lit(w, 1 + n), ty(w), ty(w), ty(w), ty(w), ty(w)))
+        return design("hier", p, src, [("a", w), ("b", w), ("en", 1)], [("y", w)], tags=[st])
     sub = Mod("Sub")
     seq = st in ("reg", "chain")
     if seq:
@@ -621,7 +653,11 @@ def _expr(rng, depth, ws):
     if r < 0.7:
         return "(%s%s)" % (rng.choice(["~", "-", "~"]), a)
     if r < 0.78:
-        return "(%s %s %d)" % (a, rng.choice(["<<", ">>"]), rng.randint(0, 9))
+        # >> only on an input: a wider sub-expression (concatenation) shifted right inside a narrower context is the
+        # known finding class narrow-context-shr-div
+        if rng.random() < 0.5:
+            return "(i%d >> %d)" % (rng.randrange(3), rng.randint(0, 9))
+        return "(%s << %d)" % (a, rng.randint(0, 9))
     if r < 0.86:
         return "{%s, %s}" % (a, b)
     if r < 0.93:
@@ -658,10 +694,33 @@ def build(family, params):
     return FAMILIES[family][1](params)
 
 
-def gen_designs(rng, n):
-    """n designs; every family appears (round-robin first, then weighted)."""
+# shapes every run must contain (the remaining parameters are drawn at random): one per conversion pass / corner
+REQUIRED = [
+    ("arith", {"wa": 65, "wb": 64, "wo": 66}), ("arith", {"wa": 3, "wb": 3, "wo": 4, "sa": True, "sb": True}),
+    ("muldiv", {"kind": "divs", "signed": True, "nz": True}), ("muldiv", {"kind": "mulvv", "wa": 9, "wb": 7}),
+    ("muldiv", {"kind": "modv", "signed": False}),
+    ("shift", {"signed": True, "w": 16, "wo": 16, "ws": 5}), ("shift", {"signed": False, "w": 33, "wo": 33, "ws": 8}),
+    ("mux", {"style": "rom", "n": 16}), ("mux", {"style": "case_stmt", "n": 9}), ("mux", {"style": "index", "n": 8}),
+    ("reduce", {"style": "prio", "w": 16}), ("reduce", {"style": "loop", "w": 33}), ("reduce", {"style": "gray", "w": 17}),
+    ("count", {"style": "ctz", "n": 16}), ("count", {"style": "popcount_seed", "n": 9}),
+    ("regs", {"style": "hold", "rst_ty": "reset_sync_high"}), ("regs", {"style": "counter_load", "rst_ty": "reset_async_low", "clk_ty": "clock_negedge"}),
+    ("regs", {"style": "noreset"}),
+    ("ram", {"style": "1r1w", "w": 8, "depth": 128}), ("ram", {"style": "else_we", "w": 8, "depth": 129}),
+    ("ram", {"style": "bytes", "w": 16, "depth": 64}), ("ram", {"style": "1r2w", "w": 9, "depth": 120}),
+    ("ram", {"style": "sub", "w": 8, "depth": 128}), ("ram", {"style": "rmw", "w": 4, "depth": 16}),
+    ("hier", {"style": "chain", "n": 3}), ("concat", {"style": "sext", "signed": True}),
+]
+
+
+def gen_designs(rng, n, required=True):
+    """the REQUIRED shapes, then n designs in which every family appears (round-robin first, then weighted)."""
     fams = list(FAMILIES)
     out = []
+    if required:
+        for f, over in REQUIRED:
+            p = FAMILIES[f][0](rng)
+            p.update(over)
+            out.append(build(f, p))
     weights = [FAMILIES[f][2] for f in fams]
     for i in range(n):
         f = fams[i % len(fams)] if i < len(fams) else rng.choices(fams, weights)[0]
